@@ -42,7 +42,8 @@ def coord(rng):
 def gen(rng):
     items = rng.sample(GLY, rng.randint(3, 8))
     glyphs = []
-    suffixes = rng.sample(["", "", ".2", ".LTR", ".RTL", ".alt"], rng.randint(0, 3))
+    # (direction suffixes also after another name component: entry.1.LTR / exit.1.LTR, entry.alt.RTL ...)
+    suffixes = rng.sample(["", "", ".2", ".LTR", ".RTL", ".alt", ".1.LTR", ".alt.LTR", ".2.RTL"], rng.randint(0, 4))
     for n, u in items:
         anchors = []
         if "_" in n and rng.random() < 0.8:
